@@ -64,7 +64,7 @@ type c08Res struct {
 type c08Opts struct {
 	mr  int    // 0 = unlimited
 	lim string // "inf", "mid" (from the model, or a third through the scan), "near" (the third best distance of the scan), "zero"
-	err int // 0: none; k: the k-th permitted error of c08Errs
+	err int    // 0: none; k: the k-th permitted error of c08Errs
 	inc bool
 }
 
